@@ -119,6 +119,9 @@ struct Ledger {
   size_t sz[CAP];
   size_t live = 0, liveBytes = 0, allocs = 0, frees = 0, peakBytes = 0;
   int on = 0, pause = 0;
+  bool quarantine = false;   // sched flavour (no ASan): freed blocks are poisoned and never reused, so double frees and writes after free are exact verdicts
+  static const size_t DEAD = (size_t)1 << 62;
+  size_t dead = 0;
   size_t limitBytes = 64u << 20;
   bool overflow = false;
   static size_t h(void* p) { return ((uintptr_t)p >> 4) * 0x9E3779B97F4A7C15ull >> 46; }
@@ -144,7 +147,23 @@ struct Ledger {
       if (tab[i] == p) { tab[i] = (void*)1; ++tomb; --live; liveBytes -= sz[i]; ++frees; return true; }
     return false;
   }
-  void reset() { memset(tab, 0, sizeof tab); tomb = 0; live = liveBytes = allocs = frees = peakBytes = 0; overflow = false; }
+  // quarantine mode: 0 = not tracked, 1 = now dead (poisoned, keep the memory), 2 = was already dead (double free)
+  int kill(void* p) {
+    size_t i = h(p) & (CAP - 1);
+    for (size_t k = 0; k < CAP && tab[i]; ++k, i = (i + 1) & (CAP - 1))
+      if (tab[i] == p) { if (sz[i] & DEAD) return 2; memset(p, 0xDD, sz[i]); sz[i] |= DEAD; --live; liveBytes -= sz[i] & ~DEAD; ++frees; ++dead; return 1; }
+    return 0;
+  }
+  // returns the address of a dead block whose poison was overwritten (write after free), or null
+  void* damaged() {
+    for (size_t i = 0; i < CAP; ++i) if (tab[i] && tab[i] != (void*)1 && (sz[i] & DEAD)) { const unsigned char* q = (const unsigned char*)tab[i]; size_t n = sz[i] & ~DEAD; for (size_t k = 0; k < n; ++k) if (q[k] != 0xDD) return tab[i]; }
+    return nullptr;
+  }
+  bool isDead(const void* p) {
+    for (size_t i = 0; i < CAP; ++i) if (tab[i] && tab[i] != (void*)1 && (sz[i] & DEAD)) { const char* q = (const char*)tab[i]; if ((const char*)p >= q && (const char*)p < q + (sz[i] & ~DEAD)) return true; }
+    return false;
+  }
+  void reset() { memset(tab, 0, sizeof tab); tomb = 0; dead = 0; live = liveBytes = allocs = frees = peakBytes = 0; overflow = false; }
 };
 extern Ledger g_ledger;
 struct LedgerPause { LedgerPause() { ++g_ledger.pause; } ~LedgerPause() { --g_ledger.pause; } };
@@ -173,6 +192,7 @@ struct Ctx {
   [[noreturn]] void fail(const std::string& kind, const std::string& detail = std::string());
 };
 extern Ctx g_ctx;
+extern void (*g_failHook)(const char* kind, const char* detail);  // when set (forked children), Ctx::fail reports through it instead of writing fail.case
 
 }  // namespace pbt
 
@@ -212,8 +232,10 @@ static void write_fail_raw(const char* kind, const char* detail) {
   close(fd);
 }
 
+void (*g_failHook)(const char*, const char*) = nullptr;
 void Ctx::fail(const std::string& kind, const std::string& detail) {
   g_ledger.on = 0;
+  if (g_failHook) { g_failHook(kind.c_str(), detail.c_str()); _exit(1); }
   char d[700]; snprintf(d, sizeof d, "op#%ld %s", opIndex, detail.c_str());
   write_fail_raw(kind.c_str(), d);
   fprintf(stderr, "FAIL %s/%s kind=%s %s\n", pbt_property, pbt_part, kind.c_str(), d);
@@ -376,6 +398,12 @@ static inline void* pbt_alloc(size_t n) {
 static inline void pbt_free(void* p) {
   if (!p) return;
   pbt::Ledger& L = pbt::g_ledger;
+  if (L.quarantine) {
+    int k = L.kill(p);
+    if (k == 1) return;                         // poisoned, never reused
+    if (k == 2) { L.on = 0; pbt::g_ctx.fail("double-free", "a block was released twice"); }
+    free(p); return;
+  }
   if (L.on || L.live) L.del(p);
   free(p);
 }
